@@ -7,9 +7,11 @@ from ..harness import coq, impl, scn
 
 pid = 'C11'
 gen_modules = ['tr_pin_inherit', 'tr_pin_contracts', 'tr_contracts', 'tr_rest_decorators', 'tr_rest_contractsconst']
-model_targets = ['Sem/ClassModel.v']
-hand_modelled = ['coq/Py/Mro.v (C3 linearisation, validated against CPython here)', 'coq/Sem/ClassModel.v: Inherit._patch on a class table (hand-written; source pinned)']
-explanation = ('Theorem: the registry of a method marked inherit contains its own contracts and, for every class of the MRO owning a contracted same-named method, '
+model_targets = ['Sem/ClassModel.v', 'Sem/ScnInherit.v', 'Thm/C11/HeapCheck.v']
+hand_modelled = ['coq/Py/Mro.v (C3 linearisation, validated against CPython here)', 'coq/Sem/ClassModel.v: Inherit._patch on a class table (hand-written; source pinned)',
+                 'coq/Sem/InheritHeap.v: Contracts.wrap, Inherit.wrap / __get__ / _patch on the heap of shared registries, patchers and class dictionaries (hand-written; source pinned; '
+                 'compared with the Contracts objects of the implementation on every scenario)']
+explanation = ('Heap-level theorems: no look-up changes the registry of a method that is not marked inherit, nor any registry outside the own registries of inherit-marked methods, nor the markers of an existing patcher (hypotheses decidable and evaluated on every scenario). Class-table theorem: the registry of a method marked inherit contains its own contracts and, for every class of the MRO owning a contracted same-named method, '
                'all of that method\'s contracts. Correspondence: registry reported by the real get_contracts vs the model on random hierarchies; monitor: enforcement by '
                'calls (first and second call), self binding.')
 RULE = ('random hierarchies of 2-6 classes (single / multiple / diamond inheritance, consistent MROs only), each class defining the method m with probability 0.6, '
@@ -156,10 +158,216 @@ def run(ctx, fr, model_available=True):
     fr.distribution = {'hierarchies': len(cases)}
 
 
+def gen_heap_case(rnd):
+    """class statements with shared contract / has decorator objects, inherit on methods and classes; queries in random order, then every class again"""
+    n = rnd.randint(2, 6)
+    names = [chr(65 + i) for i in range(n)]
+    ncid = rnd.randint(1, 5)
+    kinds = {str(i): rnd.choice(['pre', 'pre', 'post', 'ensure', 'raises']) for i in range(1, ncid + 1)}
+    patchers = {str(p): sorted(rnd.sample(['stdout', 'stderr', 'network'], rnd.randint(0, 2))) for p in range(1, rnd.randint(1, 3) + 1)}
+    classes = []
+    for i, nm in enumerate(names):
+        k = rnd.choice([0, 1, 1, 2]) if i else 0
+        bases = rnd.sample(names[:i], min(k, i)) if i else []
+        env = {}
+        try:
+            for c in classes: env[c['name']] = type(c['name'], tuple(env[b] for b in c['bases']), {})
+            type(nm, tuple(env[b] for b in bases), {})
+        except TypeError:
+            bases = bases[:1]
+        method = None
+        if rnd.random() < .65:
+            steps = []
+            for _ in range(rnd.choice([0, 1, 1, 2, 3])):
+                steps.append(['has', int(rnd.choice(sorted(patchers)))] if rnd.random() < .35 else ['val', int(rnd.choice(sorted(kinds)))])
+            method = {'steps': steps, 'inherit': rnd.random() < (.6 if bases else .1)}
+        classes.append({'name': nm, 'bases': bases, 'method': method, 'inherit_class': rnd.random() < (.3 if bases else .05)})
+    qs = names[:]; rnd.shuffle(qs)
+    return {'patchers': patchers, 'kinds': kinds, 'classes': classes, 'queries': qs + names}
+
+
+CK = {'pre': 'KPre', 'post': 'KPost', 'ensure': 'KEnsure', 'raises': 'KRaises'}
+def coq_heap_case(case):
+    def step(st): return f'SVal {CK[case["kinds"][str(st[1])]]} {st[1]}' if st[0] == 'val' else f'SHas {st[1]}'
+    def meth(m):
+        if m is None: return 'None'
+        return 'Some {| ms_steps := [%s]; ms_inherit := %s |}' % ('; '.join(step(s) for s in m['steps']), 'true' if m['inherit'] else 'false')
+    cl = '; '.join('{| cs_name := %s; cs_bases := [%s]; cs_method := %s; cs_inherit := %s |}' % (
+        q(c['name']), '; '.join(q(b) for b in c['bases']), meth(c['method']), 'true' if c['inherit_class'] else 'false') for c in case['classes'])
+    ps = '; '.join('(%s, [%s])' % (p, '; '.join(q(m) for m in ms)) for p, ms in sorted(case['patchers'].items()))
+    return f'((if run_case_wf [{ps}] [{cl}] then "WF " else "NOTWF ") ++ run_case [{ps}] [{cl}] [{"; ".join(q(x) for x in case["queries"])}])'
+
+
+def heap_monitor(case, line):
+    """independent of the model: (1) answers are stable: the second answer for a class equals its first answer (nothing that happens later changes what
+    is in force on it); (2) a method that is not marked inherit (and whose class is not) has exactly the contracts written on it."""
+    out = []
+    if line.startswith('ERROR'): return ['implementation raised: ' + line]
+    ans = [x.split('=', 1) for x in line.split('|')]
+    first = {}
+    for cn, a in ans:
+        if cn in first and first[cn] != a:
+            out.append(f'{cn}: what is in force changed from {first[cn]!r} to {a!r} although nothing was decorated in between')
+        first.setdefault(cn, a)
+    defs = {c['name']: c for c in case['classes']}
+    for c in case['classes']:
+        m = c['method']
+        if m is None or m['inherit'] or c['inherit_class']: continue
+        want = {k: [] for k in ('pre', 'post', 'ensure', 'raises')}
+        hasp = None
+        for st in m['steps']:
+            if st[0] == 'val': want[case['kinds'][str(st[1])]].append(str(st[1]))
+            else: hasp = st[1]
+        w = ';'.join(f'{k}:' + ','.join(want[k]) for k in ('pre', 'post', 'ensure', 'raises')) + ';has:' + ('-' if hasp is None else ','.join(sorted(case['patchers'][str(hasp)])))
+        if first.get(c['name']) != w:
+            out.append(f'{c["name"]}.m is not marked inherit: in force {first.get(c["name"])!r}, written on it {w!r}')
+    return out
+
+
+def run_heap(ctx, fr, model_available):
+    rnd = random.Random(ctx.seed * 13 + 7)
+    import glob, os
+    corp = [json.load(open(f)) for f in sorted(glob.glob(os.path.join(coq.VERIF, 'corpus', 'C11', 'heap-*.json')))]
+    cases = corp + [gen_heap_case(rnd) for _ in range(1500 if ctx.tier == 'thorough' else 300)]
+    res = impl.run_impl('c11_heap.py', cases)
+    mo = None
+    if model_available:
+        text = ('From Coq Require Import List String.\nImport ListNotations.\nFrom Deal Require Import Base Show Mro Interp ObjModel InheritHeap ScnInherit HeapCheck.\nOpen Scope string_scope.\n'
+                'Eval vm_compute in lines [\n ' + ';\n '.join(coq_heap_case(c) for c in cases) + '\n].\n')
+        ok, outp = coq.eval_cases('C11heap', text)
+        strs = coq.parse_strings(outp) if ok else []
+        if len(strs) == 1 and len(strs[0].split('\n')) == len(cases): mo = strs[0].split('\n')
+        else: fr.errors.append('C11 heap cases failed: ' + outp[-1500:])
+    wf_ok = 0
+    for i, (case, r) in enumerate(zip(cases, res)):
+        fr.evaluations += 1
+        if any(c['inherit_class'] or (c['method'] and c['method']['inherit']) for c in case['classes']): fr.add_nontrivial(case)
+        for what in heap_monitor(case, r):
+            fr.violations.append({'scenario': dict(case, family='heap'), 'impl': r, 'what': what, 'signature': None})
+        if mo is not None:
+            fr.programs += 1; fr.traces_validated += 1
+            wf, _, ml = mo[i].partition(' ')
+            if wf != 'WF':
+                fr.disagreements.append({'scenario': dict(case, family='heap'), 'impl': r, 'model': mo[i],
+                                         'note': 'a world built by this scenario does not satisfy the hypotheses (wwf / hier_ok) of the frame theorems of Props/C11.v'})
+            elif ml != r: fr.disagreements.append({'scenario': dict(case, family='heap'), 'impl': r, 'model': ml})
+            else: wf_ok += 1
+    fr.distribution['heap_scenarios'] = len(cases); fr.distribution['heap_scenarios_meeting_theorem_hypotheses'] = wf_ok
+    fr.samples.append({'family': 'heap', 'case': cases[-1], 'impl': res[-1]})
+
+
+HAS_SRC = r"""
+import deal, random, socket, sys, io
+__name__ = "c11_has_probe"
+EFFECTS = ["print", "stderr", "socket"]
+def allowed(markers, e):
+    if "io" in markers: return True
+    return {"print": bool({"print", "stdout"} & set(markers)), "stderr": "stderr" in markers, "socket": bool({"network", "socket"} & set(markers))}[e]
+def do(e):
+    if e == "print": print("", end="")
+    elif e == "stderr": sys.stderr.write("")
+    else: socket.socket().close()
+def verdicts(call):
+    out = []
+    for e in EFFECTS:
+        try: call(e); out.append(True)
+        except deal.MarkerError: out.append(False)
+        except BaseException as x: out.append(type(x).__name__)
+    return out
+
+def probe(seed):
+    rnd = random.Random(seed)
+    bad = []
+    for _ in range(60):
+        pool = [rnd.sample(["stdout", "stderr", "network"], rnd.randint(0, 2)) for _ in range(3)]
+        decos = [deal.has(*m) for m in pool]                       # decorator objects, shared between methods and plain functions
+        n = rnd.randint(2, 4)
+        classes, spec = [], []
+        plain = []
+        for j, d in enumerate(decos):
+            @d
+            def g(e): do(e)
+            plain.append((g, pool[j]))
+        for i in range(n):
+            bases = tuple(rnd.sample(classes, min(len(classes), rnd.choice([0, 1, 1, 2])))) if classes else ()
+            body, own, marked = {}, None, False
+            if rnd.random() < .75 or not bases:
+                def m(self, e): do(e)
+                if rnd.random() < .7:
+                    own = rnd.randrange(3); m = decos[own](m)
+                marked = bool(bases) and rnd.random() < .6
+                body["m"] = deal.inherit(m) if marked else m
+            try: cls = type("K%d" % i, bases, body)
+            except TypeError: continue
+            cls_level = bool(bases) and rnd.random() < .25
+            if cls_level: cls = deal.inherit(cls)
+            classes.append(cls); spec.append({"own": own, "marked": marked or cls_level, "defines": "m" in body})
+        def table(k):
+            return [allowed(pool[k], e) for e in EFFECTS]
+        def snapshot():
+            snap = {}
+            for (g, mk), k in zip(plain, range(3)): snap["g%d" % k] = verdicts(g)
+            for cls, sp in zip(classes, spec):
+                if hasattr(cls, "m"): snap[cls.__name__] = verdicts(lambda e: cls().m(e))
+            return snap
+        order = list(range(len(classes))); rnd.shuffle(order)
+        # touch the classes in a random order, then look at everything twice
+        for i in order:
+            if hasattr(classes[i], "m"):
+                try: classes[i]().m("none")
+                except BaseException: pass
+        s1 = snapshot(); s2 = snapshot()
+        desc = {"markers": pool, "classes": [[c.__name__, [b.__name__ for b in c.__bases__ if b is not object], sp] for c, sp in zip(classes, spec)]}
+        if s1 != s2: bad.append(["unstable", desc, s1, s2]); continue
+        for k in range(3):
+            if s1["g%d" % k] != table(k): bad.append(["plain function sharing a has() object changed", desc, "g%d" % k, s1["g%d" % k], table(k)])
+        for cls, sp in zip(classes, spec):
+            if not hasattr(cls, "m"): continue
+            # the method this class resolves to and every contracted same-named method of its MRO
+            owner = next(c for c in cls.__mro__ if "m" in vars(c))
+            osp = spec[classes.index(owner)]
+            got = s1[cls.__name__]
+            own_t = table(osp["own"]) if osp["own"] is not None else [True, True, True]
+            if not osp["marked"] and not spec[classes.index(cls)]["marked"]:
+                if got != own_t: bad.append(["method not marked inherit changed", desc, cls.__name__, got, own_t])
+                continue
+            want, union = list(own_t), (list(own_t) if osp["own"] is not None else [False, False, False])
+            anc = [spec[classes.index(c)]["own"] for c in cls.__mro__[1:] if c is not object and "m" in vars(c)]
+            anc = [a for a in anc if a is not None]
+            for a in anc:
+                want = [x and y for x, y in zip(want, table(a))]
+                union = [x or y for x, y in zip(union, table(a))]
+            if osp["own"] is None and not anc: union = [True, True, True]
+            if got != want:
+                bad.append(["inherit-marked method", desc, cls.__name__, got, want, "union" if got == union else "other"])
+    return bad
+"""
+
+
+def has_probe(ctx, fr):
+    r = impl.run_impl('pyexec.py', {'src': HAS_SRC, 'calls': [['probe', [ctx.seed]]]})[0]
+    fr.evaluations += 60; fr.add_nontrivial({'has_probe': ctx.seed})
+    if isinstance(r, dict):
+        fr.errors.append('C11 has probe failed: ' + str(r)[:600]); return
+    fr.samples.append({'family': 'inherited has() probe', 'deviations': len(r), 'first': r[:1]})
+    for b in r:
+        tag = 'has_merged_by_union' if b[0] == 'inherit-marked method' and b[-1] == 'union' else None
+        fr.violations.append({'scenario': {'family': 'has-probe', 'seed': ctx.seed, 'case': b[1]}, 'impl': b[2:], 'signature': tag,
+                              'what': f'{b[0]}: {b[2:]} ([print, stderr, socket] allowed: observed, expected) in {json.dumps(b[1])[:400]}'})
+
+
+_run0 = run
+def run(ctx, fr, model_available=True):
+    _run0(ctx, fr, model_available)
+    run_heap(ctx, fr, model_available)
+    has_probe(ctx, fr)
+
+
 def search(ctx, fr, model_available=True):
     class C2: tier = 'thorough'; seed = ctx.seed + 1
     fr2 = type(fr)(); run(C2, fr2, model_available=False)
     fr.violations += fr2.violations; fr.evaluations += fr2.evaluations
 
 
-def classify(v, findings): return None
+from . import base_scn
+classify = base_scn.classify
